@@ -978,6 +978,9 @@ class InstrOps:
             else:
                 self.call_funcv(fr, self.val(env, fnop), args, guard, ins.get("pos"), ins)
             return None
+        if h is None and self.opts.get("go_ignore"):
+            self.note("assumption", "go statement ignored at %s (the spawned goroutine is outside the claim)" % ins.get("pos"))
+            return None
         if h is None:
             raise Unsupported("go statement outside concurrent mode")
         if "invoke" in ins:
@@ -1270,6 +1273,20 @@ class InstrOps:
         """select: choose (solver variable) among enabled cases; default if non-blocking and none chosen"""
         states = ins["states"]
         n = len(states)
+        c_ = getattr(self, "conc", None)
+        if c_ is not None and c_.recording is not None:
+            t_, d_ = self.prog.under(ins["type"])
+            ets = d_["elems"][2:]
+            cases = []
+            k_ = 0
+            for st in states:
+                ch = self.val(env, st["chan"])
+                if st["dir"] == 1:
+                    cases.append((1, ch, self.val(env, st["send"]), None))
+                else:
+                    cases.append((2, ch, None, ets[k_]))
+                    k_ += 1
+            return c_.select(cases, ins["blocking"], guard, ins.get("pos"), ets)
         choice = self.fresh_int("select", 8)
         self.nondets.append(("select", choice, "choice"))
         idx_res = -1 if not ins["blocking"] else 0
